@@ -391,6 +391,17 @@ pub fn judge(emu: &mut Emu, case: &StepCase, asp: &Aspects, open_quirks: &[Quirk
             5 => pure.pc,
             _ => 0,
         };
+        // likewise the time base (the run loop's state sum and the copy the bus stamps on port messages): an
+        // instruction's effect and charge do not depend on how long the machine has been running - zero, just below
+        // 2^32, around a sync threshold, anything
+        let t: u64 = match (h >> 4) % 4 {
+            0 => 0,
+            1 => 0xffff_ffff - ((h >> 8) % 64) as u64,
+            2 => 1_999_990 + ((h >> 8) % 20) as u64,
+            _ => (h as u64) << 13,
+        };
+        emu.cpu.bus.cpu_state_sum = t as usize;
+        crate::cpu::verif_hooks::set_state_sum(&mut emu.cpu, t as usize);
     }
     // --- emulator
     let result = match case.irq {
